@@ -165,6 +165,13 @@ def build_inputs(tier):
         cases.append(("pool", "x = " + s + "\n", "exec"))
         if "\n" not in s:
             cases.append(("pool", s, "eval"))
+    # what a field may contain across lines: backslash continuations and plain line breaks inside the braces, followed by
+    # more code at a smaller indentation (the tokenizer's per-line flags must be back to normal after the string)
+    for body in ["{a + \\\n b}", "{a +\n b}", "x{a}\n{b + \\\n c}y", "{(a,\n b)}"]:
+        for q in ["'''", '"""']:
+            cases.append(("multiline-field", f"if x:\n    y = f{q}{body}{q}\nz = 3\n", "exec"))
+            cases.append(("multiline-field", f"y = f{q}{body}{q}\nz = 3\n", "exec"))
+    cases.append(("multiline-field", "if x:\n    y = f'{a + \\\n b}'\nz = 3\n", "exec"))
     # product generator (valid sub-domain and known-defect sub-domain)
     for _ in range(900 * N):
         p = r.choice(PREFIXES)
